@@ -68,7 +68,7 @@ func writerOpts(a *Arch) []carv2.Option {
 }
 
 func runWriteCase(x *acCtx, c *acCase) {
-	if c.A.Npad > 0 || (c.A.Ver == 2 && c.A.Idx == "none") {
+	if c.A.Npad > 0 || c.A.Hx > 0 || (c.A.Ver == 2 && c.A.Idx == "none") { // no writer produces null padding, a non-canonical header or an index-less CARv2
 		return
 	}
 	a := c.A
